@@ -6,7 +6,10 @@ import (
 	"encoding/json"
 	"errors"
 	"fmt"
+	"runtime"
 	"strings"
+	"sync"
+	"sync/atomic"
 	"time"
 
 	"github.com/rs/zerolog"
@@ -105,6 +108,47 @@ func sameMat(a Mat, m *sparse.CSMatrix) bool {
 	return true
 }
 
+// fuelCtx cancels itself when basic.Compute's own loop polls it for the (fuel+1)-th
+// time, i.e. at the top of iteration number `fuel`: the exact counterpart of the
+// model running out of fuel.  Polls from MulVec/Transpose are not counted.
+type fuelCtx struct {
+	context.Context
+	fuel  int64
+	n     atomic.Int64
+	done  chan struct{}
+	once  sync.Once
+	fired atomic.Bool
+}
+
+func newFuelCtx(parent context.Context, fuel int) *fuelCtx {
+	return &fuelCtx{Context: parent, fuel: int64(fuel), done: make(chan struct{})}
+}
+func (c *fuelCtx) Done() <-chan struct{} {
+	var pcs [1]uintptr
+	if runtime.Callers(2, pcs[:]) == 1 {
+		if f := runtime.FuncForPC(pcs[0] - 1); f != nil && f.Name() == "k3l.io/go-eigentrust/pkg/basic.Compute" {
+			if c.n.Add(1) > c.fuel {
+				c.once.Do(func() { c.fired.Store(true); close(c.done) })
+			}
+		}
+	}
+	select {
+	case <-c.Context.Done():
+		c.once.Do(func() { c.fired.Store(true); close(c.done) })
+	default:
+	}
+	return c.done
+}
+func (c *fuelCtx) Err() error {
+	if c.fired.Load() {
+		if err := c.Context.Err(); err != nil {
+			return err
+		}
+		return context.DeadlineExceeded
+	}
+	return nil
+}
+
 // runCompute runs basic.Compute on the input with the given parent context.
 func runCompute(parent context.Context, in *ComputeIn) (obs ComputeObs) {
 	var buf bytes.Buffer
@@ -116,6 +160,9 @@ func runCompute(parent context.Context, in *ComputeIn) (obs ComputeObs) {
 	}
 	ctx, cancel := context.WithTimeout(ctx, time.Duration(wd)*time.Millisecond)
 	defer cancel()
+	if in.Fuel > 0 {
+		ctx = newFuelCtx(ctx, in.Fuel)
+	}
 	c := in.C.csr()
 	p := in.P.sparse()
 	var t0 *sparse.Vector
